@@ -55,14 +55,14 @@ Example brace_outside_parameter_refuted :
     In (mkSymbol (Some "a") TParameter (Some (IInt 0%Z)) (Some (IInt 0%Z)) None None) syms.
 Proof. exists "Y = {{a}}". eexists. split; [vm_compute; reflexivity|]. cbn [In]. repeat split; auto. Qed.
 
-(* #19: a name used both as a variable and as a function in one statement: the FUNCTION symbol overwrites the
-   variable, so the class declares no series `exp` although the generated code reads self._exp *)
-Example function_shadows_variable_refuted :
-  exists script syms, parse_model_nocheck script = POk syms /\
-    In (mkSymbol (Some "Y") TEndogenous (Some (IInt 0%Z)) (Some (IInt 0%Z)) (Some "Y[t] = exp[t] + exp(X[t])")
-                 (Some "self._Y[t] = self._exp[t] + np.exp(self._X[t])")) syms /\
-    names_of syms = ["Y"; "X"] /\ program_of_script script = None.
-Proof. exists "Y = exp + exp(X)". eexists. split; [vm_compute; reflexivity|]. cbn [In]. repeat split; auto. Qed.
+(* #19 is repaired (b45daa1): a name used both as a series and as a function — in one statement, in either order, or in two
+   statements — is rejected with SymbolError; every_series_term_declared (CodeGenFacts11) is the positive statement *)
+Example function_and_series_name_rejected :
+  parse_model_nocheck "Y = exp + exp(X)" = PErr SymbolError /\
+  parse_model_nocheck "Y = log(log[-1])" = PErr SymbolError /\
+  parse_model_nocheck ("Y = exp(X)" ++ lf ++ "Z = exp") = PErr SymbolError /\
+  (exists syms, parse_model_nocheck "Y = exp(X) + exp(Z)" = POk syms /\ names_of syms = ["Y"; "X"; "Z"]).
+Proof. repeat split; try (vm_compute; reflexivity). eexists. split; vm_compute; reflexivity. Qed.
 
 (* NEW: a series whose name begins with an underscore: the class-body access self.__x is name-mangled by CPython to
    self._Model__x, which does not exist — the model builds, the text is what the rule says, the evaluation raises
@@ -263,3 +263,15 @@ Example lhs_offset_pass :
   | None => False
   end.
 Proof. vm_compute. split; reflexivity. Qed.
+
+(* one-line verbatim assignments of the arithmetic subset are statements of the program, run where the symbol list puts them
+   (after the equations), read off their own code; a verbatim statement outside the subset makes the script unsupported *)
+Example verbatim_statement_program :
+  program_of_script ("`self._W[t] = self._Y[t-1] * 2.0 + max(self._Z[t+1], 1)`" ++ lf ++ "Y = X + 1" ++ lf ++ "Z = Y * W")
+  = Some (["Y"; "Z"; "X"; "W"],
+          [SAssign 0 0%Z (EBin OAdd (ERead 2 0%Z) (ENum "1"));
+           SAssign 1 0%Z (EBin OMul (ERead 0 0%Z) (ERead 3 0%Z));
+           SAssign 3 0%Z (EBin OAdd (EBin OMul (ERead 0 (-1)%Z) (ENum "2.0")) (EMax (ERead 1 1%Z) (ENum "1")))]) /\
+  program_of_script ("`self.k = 3`" ++ lf ++ "Y = X + 1") = None /\
+  program_of_script ("```" ++ lf ++ "self._Y[t] = 1" ++ lf ++ "```" ++ lf ++ "Z = X") = None.
+Proof. vm_compute. repeat split; reflexivity. Qed.
